@@ -231,13 +231,15 @@ func checkC20(p *core.Program, r *core.Report) {
 	}
 
 	// ---- R1a who may call Run.SaveResult
+	saveOwners := p.HelperClosure(map[*ssa.Function]bool{saveResult: true, routeToCat: true})
 	nSave := 0
 	for _, cs := range p.CallsToName("flows.Run.SaveResult") {
 		if p.IsTestFile(cs.Pos()) {
 			continue
 		}
 		nSave++
-		ok := cs.Caller == saveResult || cs.Caller == routeToCat
+		// the two choke points, or an unexported helper called only from them
+		ok := saveOwners[cs.Caller]
 		r.Check(ok, "R1", core.FuncName(cs.Caller)+"->Run.SaveResult", p.Pos(cs.Pos()), "declared choke point",
 			"a result is saved outside baseAction.saveResult / baseRouter.routeToCategory: inspection cannot know about it")
 	}
@@ -394,10 +396,11 @@ func checkC20(p *core.Program, r *core.Report) {
 			r.Errorf("baseRouter.EnumerateResults not found")
 		} else {
 			var savedName, savedCat string
-			for _, cs := range core.Calls(routeToCat, false) {
+			for _, ec := range core.EffectiveCalls(routeToCat, 2) {
+				cs := ec.Inner
 				if oo := core.CalleeObj(cs.Common()); oo != nil && core.ObjName(oo) == "flows.NewResult" {
-					savedName = recvCanon(core.StripConv(cs.Common().Args[0]), routeToCat)
-					savedCat = recvCanon(core.StripConv(cs.Common().Args[2]), routeToCat)
+					savedName = recvCanon(core.StripConv(cs.Common().Args[0]), cs.Caller)
+					savedCat = recvCanon(core.StripConv(cs.Common().Args[2]), cs.Caller)
 				}
 			}
 			var declName string
